@@ -496,12 +496,14 @@ def _parse_color_88(desc: str) -> int | None:
     >>> _parse_color_88('g#80')
     83
     """
-    if len(desc) == 7 and desc.startswith("#"):
-        desc = desc[0:2] + desc[3] + desc[5]
-    if len(desc) > 4:
-        # keep the length within reason before parsing
-        return None
     try:
+        if len(desc) == 7 and desc.startswith("#"):
+            # '#rrggbb': all six digits are validated, the high one of each component is used
+            _int_digits(desc[1:], 16)
+            desc = desc[0:2] + desc[3] + desc[5]
+        if len(desc) > 4:
+            # keep the length within reason before parsing
+            return None
         if desc.startswith("h"):
             # high-color number
             num = _int_digits(desc[1:], 10)
